@@ -10,6 +10,8 @@ Rules are phrased over this canonical form so that behaviour-preserving respelli
  N4  an `else: pass` arm is dropped
  N5  a temporary with exactly one binding and one use, the use sitting at the head of the very next statement, is inlined
      (`c = f(x); if c:` -> `if f(x):`)
+ N9  `a, b = x, y` -> `a = x; b = y`;   N10  `X if X else Y` -> `X or Y` for a plain name/attribute chain X
+ N11 `for v in (A, B): BODY` over a short display of names/literals is unrolled
  N8  a private or ALL_CAPS module-level name bound once to a literal is replaced by that literal where it is read
  N6  `v = []` directly followed by `for t in xs: [if c:] v.append(e)` -> `v = [e for t in xs if c]`
 
@@ -80,6 +82,9 @@ class _Norm(ast.NodeTransformer):
         t, swapped = self._positive(n.test)
         if swapped:
             n.test, n.body, n.orelse = t, n.orelse, n.body
+        # N10: `X if X else Y` -> `X or Y` (X a plain name/attribute chain: evaluating it twice or once is the same)
+        if ast.dump(n.test) == ast.dump(n.body) and _is_chain(n.test):
+            return ast.copy_location(ast.BoolOp(ast.Or(), [n.body, n.orelse]), n)
         return n
 
     # ---- N1 ------------------------------------------------------------------------------------
@@ -107,6 +112,7 @@ class _Norm(ast.NodeTransformer):
     def _fold(self, fn, stmts):
         out: list = []
         i = 0
+        stmts = self._split_tuple_assignments(stmts)
         stmts = self._loops_to_comprehensions(fn, stmts)
         while i < len(stmts):
             s = stmts[i]
@@ -130,6 +136,22 @@ class _Norm(ast.NodeTransformer):
                         continue
             out.append(s)
             i += 1
+        return out
+
+    @staticmethod
+    def _split_tuple_assignments(stmts):
+        """N9: `a, b = x, y` -> `a = x; b = y` when no right-hand side mentions a target of the statement"""
+        out = []
+        for s in stmts:
+            if (isinstance(s, ast.Assign) and len(s.targets) == 1 and isinstance(s.targets[0], ast.Tuple)
+                    and isinstance(s.value, ast.Tuple) and len(s.targets[0].elts) == len(s.value.elts)
+                    and all(isinstance(t, ast.Name) for t in s.targets[0].elts)):
+                names = {t.id for t in s.targets[0].elts}
+                if not any(isinstance(n, ast.Name) and n.id in names for v in s.value.elts for n in ast.walk(v)):
+                    for t, v in zip(s.targets[0].elts, s.value.elts):
+                        out.append(ast.copy_location(ast.Assign([t], v, lineno=s.lineno), s))
+                    continue
+            out.append(s)
         return out
 
     @staticmethod
@@ -162,6 +184,12 @@ class _Norm(ast.NodeTransformer):
             out.append(s)
             i += 1
         return out
+
+
+def _is_chain(e: ast.AST) -> bool:
+    while isinstance(e, ast.Attribute):
+        e = e.value
+    return isinstance(e, ast.Name)
 
 
 def _is_empty_list(e: ast.AST) -> bool:
@@ -201,11 +229,12 @@ def _replace(root: ast.AST, old: ast.AST, new: ast.AST):
                         return
 
 
-def _literal(e: ast.AST) -> bool:
+def _literal(e: ast.AST, names_ok: bool = True) -> bool:
     if isinstance(e, ast.Constant):
         return True
     if isinstance(e, (ast.Tuple, ast.List, ast.Set)):
-        return all(_literal(x) for x in e.elts)
+        # a display of literals, or of plain (dotted) names - classes, enum members - collected under one constant name
+        return all(_literal(x, False) or (names_ok and _is_chain(x)) for x in e.elts)
     if isinstance(e, ast.Call) and isinstance(e.func, ast.Name) and e.func.id in ('frozenset', 'tuple', 'set') and len(e.args) <= 1 \
             and not e.keywords:
         return all(_literal(x) for x in e.args)
@@ -214,6 +243,29 @@ def _literal(e: ast.AST) -> bool:
     if isinstance(e, ast.BinOp) and isinstance(e.op, ast.Add):
         return _literal(e.left) and _literal(e.right)
     return False
+
+
+def _subst(e: ast.AST, binds) -> ast.AST:
+    import copy
+
+    class T(ast.NodeTransformer):
+        def visit_Name(self, n):
+            if isinstance(n.ctx, ast.Load) and n.id in binds:
+                return ast.copy_location(copy.deepcopy(binds[n.id]), n)
+            return n
+    return T().visit(e)
+
+
+def _fold(e: ast.AST) -> ast.AST:
+    """'a' + 'b' -> 'ab' (string constants only)"""
+    class T(ast.NodeTransformer):
+        def visit_BinOp(self, n):
+            self.generic_visit(n)
+            if isinstance(n.op, ast.Add) and isinstance(n.left, ast.Constant) and isinstance(n.right, ast.Constant) \
+                    and isinstance(n.left.value, str) and isinstance(n.right.value, str):
+                return ast.copy_location(ast.Constant(n.left.value + n.right.value), n)
+            return n
+    return T().visit(e)
 
 
 def propagate_module_constants(tree: ast.Module) -> ast.Module:
@@ -243,6 +295,24 @@ def propagate_module_constants(tree: ast.Module) -> ast.Module:
             for nm in n.names:
                 binds.pop(nm, None)
     binds = {k: v for k, v in binds.items() if counts.get(k) == 1}
+    # constants defined from other constants (_STR_TAG = _PREFIX + 'str'): resolve to a fixpoint, folding string concatenation
+    cand = {}
+    for st in tree.body:
+        if isinstance(st, ast.Assign) and len(st.targets) == 1 and isinstance(st.targets[0], ast.Name) \
+                and counts.get(st.targets[0].id) == 1 and _re.match(r'^(_\w+|[A-Z][A-Z0-9_]*)$', st.targets[0].id) \
+                and not st.targets[0].id.startswith('__') and st.targets[0].id not in binds:
+            cand[st.targets[0].id] = st
+    for _ in range(4):
+        progress = False
+        for nm, st in list(cand.items()):
+            v = _fold(_subst(copy.deepcopy(st.value), binds))
+            if _literal(v):
+                binds[nm] = v
+                del cand[nm]
+                progress = True
+        if not progress:
+            break
+    binds = {k: _fold(v) for k, v in binds.items()}
     if not binds:
         return tree
 
@@ -269,6 +339,9 @@ def propagate_module_constants(tree: ast.Module) -> ast.Module:
 
         def visit_Name(self, n):
             if isinstance(n.ctx, ast.Load) and n.id in binds and n.id not in self.shadow[-1]:
+                inner = {x.id for x in ast.walk(binds[n.id]) if isinstance(x, ast.Name)}
+                if inner & self.shadow[-1]:
+                    return n            # a name inside the constant's value means something else here
                 return ast.copy_location(copy.deepcopy(binds[n.id]), n)
             return n
 
@@ -277,14 +350,49 @@ def propagate_module_constants(tree: ast.Module) -> ast.Module:
     for st in tree.body:
         if isinstance(st, (ast.FunctionDef, ast.AsyncFunctionDef, ast.ClassDef)):
             new_body.append(sub.visit(st))
+        elif isinstance(st, (ast.For, ast.Expr, ast.If)):
+            new_body.append(sub.visit(st))      # module-level registration code reads the constants too
         else:
             new_body.append(st)
     tree.body = new_body
     return tree
 
 
+def unroll_display_loops(tree: ast.Module) -> ast.Module:
+    """N11: `for v in (A, B, ..): BODY` over a display of at most 8 plain names / literals, BODY free of break/continue and of
+    stores to v, becomes BODY[v:=A]; BODY[v:=B]; .."""
+    import copy
+
+    def unroll(stmts):
+        out = []
+        for s in stmts:
+            for fld in ('body', 'orelse', 'finalbody'):
+                v = getattr(s, fld, None)
+                if isinstance(v, list) and v and isinstance(v[0], ast.stmt) and not isinstance(s, (ast.FunctionDef, ast.AsyncFunctionDef, ast.ClassDef)):
+                    setattr(s, fld, unroll(v))
+            if isinstance(s, (ast.FunctionDef, ast.AsyncFunctionDef, ast.ClassDef)):
+                s.body = unroll(s.body)
+            for h in getattr(s, 'handlers', []) or []:
+                h.body = unroll(h.body)
+            if (isinstance(s, ast.For) and isinstance(s.target, ast.Name) and isinstance(s.iter, (ast.Tuple, ast.List))
+                    and 0 < len(s.iter.elts) <= 8 and not s.orelse
+                    and all(isinstance(x, ast.Constant) or _is_chain(x) for x in s.iter.elts)
+                    and not any(isinstance(n, (ast.Break, ast.Continue)) for b in s.body for n in ast.walk(b))
+                    and not any(isinstance(n, ast.Name) and n.id == s.target.id and not isinstance(n.ctx, ast.Load)
+                                for b in s.body for n in ast.walk(b))):
+                for el in s.iter.elts:
+                    for b in s.body:
+                        out.append(_subst(copy.deepcopy(b), {s.target.id: el}))
+                continue
+            out.append(s)
+        return out
+    tree.body = unroll(tree.body)
+    return tree
+
+
 def normalize(tree: ast.Module) -> ast.Module:
     tree = propagate_module_constants(tree)
+    tree = unroll_display_loops(tree)
     tree = _Norm().visit(tree)
     ast.fix_missing_locations(tree)
     return tree
